@@ -243,11 +243,22 @@ def candidatesScheds (swr : Swr) (inp : Input) : List Sched :=
 instance : BEq Obs := ⟨fun a b => a.reqs == b.reqs && a.scales == b.scales && a.crashed == b.crashed⟩
 
 structure Verdict where
-  matched : Bool
-  witness : Option Sched
+  matchedFull : Bool
+  matched : List (String × Bool)      -- per property, under that property's projection
   nScheds : Nat
   modelBad : List (String × String)   -- (property, clause) violated by some model outcome
   tags : List String
+
+def eraseBodies (o : Obs) : Obs :=
+  { o with reqs := o.reqs.map (·.map fun | .postTargets _ => .postTargets [] | r => r) }
+def onlyBodies (o : Obs) : Obs :=
+  { o with scales := [], reqs := o.reqs.map (·.filter C08.isPostT) }
+def onlyScales (o : Obs) : Obs := { o with reqs := [] }
+
+/-- what each property's correspondence check compares -/
+def projections : List (String × (Obs → Obs)) :=
+  [("C01", onlyBodies), ("C04", onlyBodies), ("C05", onlyBodies), ("C07", onlyScales),
+   ("C08", fun o => { eraseBodies o with scales := [] })]
 
 def props : List (String × (Input → Obs → Bool) × (Input → Obs → String)) :=
   [("C01", C01.ok, C01.clause), ("C04", C04.ok, C04.clause), ("C05", C05.ok, C05.clause),
@@ -272,7 +283,9 @@ def judge (inp : Input) (ob : Obs) : Verdict :=
   let scheds := candidatesScheds swrFloat inp
   let outs := scheds.map fun sc => (sc, cycle swrFloat sc inp)
   let obc := canonObs ob
+  let mouts := outs.map fun (_, out) => canonObs (Obs.ofOutcome out)
   let hit := outs.find? fun (_, out) => canonObs (Obs.ofOutcome out) == obc
+  let matched := projections.map fun (name, pr) => (name, mouts.any fun m => pr m == pr obc)
   let modelBad := props.filterMap fun (name, ok, clause) =>
     match outs.find? (fun (_, out) => !ok inp (Obs.ofOutcome out)) with
     | some (_, out) => some (name, clause inp (Obs.ofOutcome out))
@@ -280,7 +293,7 @@ def judge (inp : Input) (ob : Obs) : Verdict :=
   let tags := match hit with
     | some (_, out) => tagsOf out inp
     | none => match outs.head? with | some (_, out) => tagsOf out inp | none => []
-  { matched := hit.isSome, witness := hit.map (·.1), nScheds := scheds.length, modelBad, tags }
+  { matchedFull := hit.isSome, matched, nScheds := scheds.length, modelBad, tags }
 
 def handle (line : String) : String :=
   match parseInts line with
@@ -297,6 +310,7 @@ def handle (line : String) : String :=
         match v.modelBad.find? (·.1 == name) with
         | some (_, c) => s!"{name}={c}"
         | none => s!"{name}=ok"
-      s!"case {id} match={if v.matched then 1 else 0} nsched={v.nScheds} impl {" ".intercalate impl} model {" ".intercalate model} tags {",".intercalate v.tags}"
+      let ms := v.matched.map fun (n, b) => s!"{n}={if b then 1 else 0}"
+      s!"case {id} match={if v.matchedFull then 1 else 0} nsched={v.nScheds} matched {" ".intercalate ms} impl {" ".intercalate impl} model {" ".intercalate model} tags {",".intercalate v.tags}"
 
 end Kvass.Driver.Coord
